@@ -58,6 +58,7 @@ def all_strings(L):
 
 def idx_text(n, salt):
     # both index styles the parser distinguishes: digits (converted to int) and names
+    # index 0 stays the integer 0 in two of three scenarios (a falsy cell index must still be an index)
     return str(n) if (n + salt) % 3 else 'c%d' % n
 
 
